@@ -1,6 +1,6 @@
 # C20: results do not depend on the build configuration (DESIGN 6.20, reduced scope)
 import os, json, hashlib, time
-from symex.checklib import Case, run_check, get_prog
+from symex.checklib import Case, run_check, get_prog, merge_evidence
 from symex import driver, stubs_hash, cstubs, stubs_big
 from checks import c13
 
@@ -35,27 +35,6 @@ def nocgo_identity():
     for n in diff:
         res['inconclusive'].append('SSA of %s differs between the cgo and the no_cgo build (results about it do not transfer automatically)' % n)
     return res, len(same), diff
-
-def merge(parts, tier, seed, t0):
-    evdir = os.path.join(driver.VERIF, 'evidence') if driver.REPO == '/repo' else os.path.join(driver.CACHE, 'evidence_scratch')
-    evs = [json.load(open(os.path.join(evdir, p + '.json'))) for p in parts]
-    cov = {'evaluations': 0, 'distinct_nontrivial': 0, 'states': 0, 'transitions': 0, 'traces_validated_against_impl': 0, 'cases': 0, 'paths': 0, 'assertions_checked': 0, 'solver_s': 0.0}
-    for e in evs:
-        for k in cov:
-            cov[k] += e['coverage'].get(k, 0)
-    cov['rule'] = evs[0]['coverage']['rule']
-    cov['samples'] = sum((e['coverage']['samples'][:3] for e in evs), [])
-    cov['exhaustive'] = all(e['coverage']['exhaustive'] for e in evs)
-    cov['parts'] = {p: {k: e['coverage'][k] for k in ('cases', 'paths', 'assertions_checked', 'solver_queries', 'bounds', 'explanation', 'encoding_source', 'inconclusive') if k in e['coverage']} for p, e in zip(parts, evs)}
-    cov['functions_encoded'] = sorted(set(sum((e['coverage']['functions_encoded'] for e in evs), [])))[:400]
-    cov['trusted_base'] = sorted(set(sum((e['coverage']['trusted_base'] for e in evs), [])))
-    cov['bounds'] = {p: e['coverage']['bounds'] for p, e in zip(parts, evs)}
-    cov['inconclusive'] = sum((e['coverage']['inconclusive'] for e in evs), [])
-    ev = {'property_id': 'C20', 'tier': tier, 'seed': seed, 'level': 'model_checking', 'coverage': cov,
-          'assumptions': sorted(set(sum((e['assumptions'] for e in evs), []))), 'wall_s': round(time.time() - t0, 2), 'violations': sum(e['violations'] for e in evs)}
-    json.dump(ev, open(os.path.join(evdir, 'C20.json'), 'w'), indent=1, default=str)
-    for p in parts:
-        os.remove(os.path.join(evdir, p + '.json'))
 
 def run(tier, seed):
     thorough = tier == 'thorough'
@@ -129,5 +108,5 @@ def run(tier, seed):
         assumptions=['same as C11 / C12 (uninterpreted ECDSA relation, HKDF as a function of its arguments)'],
         trusted=stubs_big.TRUSTED,
         explanation='each configuration equals the same reference (documented bounds and derivations), hence the configurations equal each other')
-    merge(['C20_purego', 'C20_default', 'C20_cglue', 'C20_nocgo'], tier, seed, t0)
+    merge_evidence('C20', ['C20_purego', 'C20_default', 'C20_cglue', 'C20_nocgo'], tier, seed, t0)
     return 1 if rc else 0
